@@ -1,6 +1,7 @@
 package harness
 
 import (
+	"os"
 	"context"
 	"crypto/sha256"
 	"encoding/hex"
@@ -135,9 +136,13 @@ func NewEnv(sim *simrt.Sim, sch *Schema, property string) (*Env, error) {
 	sim.Trace = func(step int, key string, n int) {
 		fmt.Fprintf(e.digest, "%d %s %d\n", step, key, n)
 	}
+	grep := os.Getenv("VERIF_GREP")
 	sim.Net.Tap = func(l *simrt.Link, dir int, phase string, idx int, f []byte) {
 		if phase == "send" {
 			fmt.Fprintf(e.digest, "F %s %d %d %s", l.Name, dir, idx, f)
+		}
+		if grep != "" && strings.Contains(string(f), grep) {
+			e.Logf("FRAME %s %s dir=%d #%d: %s", phase, l.Name, dir, idx, trimStr(string(f), 1500))
 		}
 	}
 	sim.Extra = e.extra
